@@ -3,7 +3,7 @@
 // file, You can obtain one at https://mozilla.org/MPL/2.0/.
 
 use super::*;
-use crate::parsing::text_query::{parse_expr, Token, TokenIterator};
+use crate::parsing::text_query::{nests_too_deeply, parse_expr, Token, TokenIterator};
 use serde_derive::{Deserialize, Serialize};
 use std::convert::TryFrom;
 use std::ops::Deref;
@@ -35,6 +35,9 @@ impl TryFrom<String> for ExprString {
 
     fn try_from(input: String) -> Result<Self, Self::Error> {
         let mut iter = TokenIterator::new(&input).peekable();
+        if nests_too_deeply(&iter) {
+            return Err("Expression is nested too deeply".to_owned());
+        }
         let expr = parse_expr(&mut iter);
         if let Some(Token::Eof) = iter.next() {
             Ok(ExprString(expr))
